@@ -138,7 +138,7 @@ def py_eval_rhs(text):
 
 
 def place(text, placement):
-  if placement == 'flat':
+  if placement in ('flat', 'lines'):
     return 'c02probe.p = ' + text + '\n'
   if placement == 'flat-noeol':
     return 'c02probe.p=' + text
@@ -183,7 +183,9 @@ def check_grammar(case):
     gin.clear_config()
     with warnings.catch_warnings():
       warnings.simplefilter('ignore')
-      gin.parse_config(src)
+      # ('lines': the same text handed over as the list of its lines -- lines of a multi-line
+      # literal, blank or starting with '#', are part of the value)
+      gin.parse_config(src.split('\n') if placement == 'lines' else src)
     key = 'a/b/c02probe.p' if placement == 'scoped' else 'c02probe.p'
     got = gin.query_parameter(key)
     gin.clear_config()
@@ -380,7 +382,7 @@ EDIT_CHARS = list("[](){},:'\"-+.#@%\\ \n\t=;ebxj_0179") + ['None', 'True', "''"
 def _grammar(draw):
   text, feats = draw(literals.value(depth=3, in_brackets=False))
   placement = draw(st.sampled_from(['flat', 'flat', 'flat-noeol', 'continuation', 'block',
-                                    'scoped', 'parse_value']))
+                                    'scoped', 'parse_value', 'lines']))
   return {'kind': 'grammar', 'text': text, 'feats': sorted(set(feats)), 'place': placement}
 
 
